@@ -193,6 +193,10 @@ func zeroValue(t types.Type, qf func(*types.Package) string) string {
 		}
 		return types.TypeString(tt, qf) + "{}"
 
+	case *types.Alias:
+		//any, and aliases declared by the user
+		return zeroValue(types.Unalias(tt), qf)
+
 	case *types.Named:
 		under := tt.Underlying()
 		if _, ok := under.(*types.Struct); ok {
